@@ -27,7 +27,7 @@ Definition dListS {A} (p : dec A) : dec (list A) :=
 
 Definition dKind : dec pkind :=
   let* k := dZ in
-  match k with 1 => ret KGang | 2 => ret KPrio | 3 => ret KConf | 4 => ret KProp | 5 => ret KCap | _ => fail end.
+  match k with 1 => ret KGang | 2 => ret KPrio | 3 => ret KConf | 4 => ret KProp | 5 => ret KCap | 6 => ret KDrf | _ => fail end.
 Definition dPlug : dec plug := let* k := dKind in let* a := dBool in let* b := dBool in ret (mkPlug k a b).
 
 Definition dJobPh : dec (job_spec * Z) :=
